@@ -19,7 +19,11 @@ Extras == << <<Field("a", 0, Arr(Arr(U(8), 2), 3), 0), Field("b", 1, Arr(Arr(I(8
              <<Field("a", 0, Dyn(Opt(U(8))), 0), Field("b", 1, Dyn(Opt(I(16))), 0)>>,
              <<Field("a", 1, Opt(Arr(U(3), 2)), 0), Field("b", 0, Opt(Arr(I(3), 2)), 0)>>,
              <<Field("a", 0, Arr(Dyn(F32), 2), 1), Field("b", 1, Arr(Dyn(U(32)), 2), 1)>>,
-             <<Field("a", 0, Dyn(Dyn(En("Ec"))), 1), Field("b", 1, Dyn(Dyn(U(3))), 1)>> >>
+             <<Field("a", 0, Dyn(Dyn(En("Ec"))), 1), Field("b", 1, Dyn(Dyn(U(3))), 1)>>,
+             (* an enum that is NEVER the type of a field itself, only of array elements / optionals *)
+             <<Field("a", 0, Arr(En("Eo"), 2), 1), Field("b", 1, Opt(En("Eo")), 1)>>,
+             <<Field("a", 1, Dyn(En("Eo")), 1), Field("b", 0, U(3), 0)>> >>
+EnumO == [name |-> "Eo", items |-> <<[name |-> "Oa", value |-> IntOfNat(0)], [name |-> "Ob", value |-> IntOfNat(2)], [name |-> "Oc", value |-> IntOfNat(5)]>>]
 NRoot == Len(T1) + Len(Picked) + Len(Extras)
 RName(i) == (CASE i % 3 = 0 -> "R" [] i % 3 = 1 -> "Root" [] OTHER -> "MessageNumber") \o ToString(i)      \* names shorter and longer than a 4-character bus tag
 RootFields(i) == IF i <= Len(T1) THEN <<Field("a", 0, T1[i], 0)>>
@@ -39,13 +43,18 @@ BuslessImpls == SelectSeq([i \in 1..NRoot |->
                    LAMBDA im : Busless(CHOOSE i \in 1..NRoot : RName(i) = im.name))
 MegaSchema ==
     [structs |-> <<Inner>> \o [i \in 1..NRoot |-> [name |-> RName(i), fields |-> RootFields(i)]],
-     enums |-> Enums,
+     enums |-> Enums \o <<EnumO>>,
      impls |-> BuslessImpls \o SelectSeq([i \in 1..NRoot |->
                   [name |-> RName(i), protocol |-> "can", type |-> RName(i),
                    fields |-> << [name |-> "id", value |-> [i |-> SidOf(i)]],
                                  [name |-> "bus", value |-> [s |-> BusStr(BusNames[((i \div 4) % 4) + 1])]] >>,
-                   signals |-> <<>>]], LAMBDA im : Bound(CHOOSE i \in 1..NRoot : RName(i) = im.name))]
-HasBus(im) == \E f \in Range(im.fields) : f.name = "bus"
+                   signals |-> <<>>]], LAMBDA im : Bound(CHOOSE i \in 1..NRoot : RName(i) = im.name))
+              (* the same structs bound once more, under the SAME binding name, by another protocol - after their CAN binding *)
+              \o SelectSeq([i \in 1..NRoot |->
+                  [name |-> RName(i), protocol |-> "uart", type |-> RName(i),
+                   fields |-> << [name |-> "id", value |-> [i |-> SidOf(i)]], [name |-> "bus", value |-> [s |-> "zz"]] >>,
+                   signals |-> <<>>]], LAMBDA im : LET i == CHOOSE i \in 1..NRoot : RName(i) = im.name IN Bound(i) /\ i % 8 = 1)]
+HasBus(im) == im.protocol = "can" /\ \E f \in Range(im.fields) : f.name = "bus"
 TableOf(sch) == LET bound == SelectSeq(sch.impls, HasBus) IN
                 [j \in 1..Len(bound) |->
                    [name |-> bound[j].name, sid |-> IdOf(bound[j]),
